@@ -119,6 +119,9 @@ func positionFinishOffsetsGPOS(buffer *Buffer) {
 
 func applyRecurseGPOS(c *otApplyContext, lookupIndex uint16) bool {
 	gpos := c.font.face.GPOS
+	if int(lookupIndex) >= len(gpos.Lookups) { // invalid nested lookup index
+		return false
+	}
 	l := lookupGPOS(gpos.Lookups[lookupIndex])
 	return c.applyRecurseLookup(lookupIndex, l)
 }
@@ -143,6 +146,9 @@ func (c *otApplyContext) applyGPOS(table tables.GPOSLookup) bool {
 		case tables.SinglePosData1:
 			c.applyGPOSValueRecord(inner.ValueFormat, inner.ValueRecord, glyphPos)
 		case tables.SinglePosData2:
+			if index >= len(inner.ValueRecords) { // the coverage index is not sanitized in tables.Parse
+				return false
+			}
 			c.applyGPOSValueRecord(inner.ValueFormat, inner.ValueRecords[index], glyphPos)
 		}
 		buffer.idx++
@@ -285,6 +291,9 @@ func (c *otApplyContext) applyGPOSPair1(inner tables.PairPosData1, index int) bo
 	buffer := c.buffer
 	skippyIter := &c.iterInput
 	pos := skippyIter.idx
+	if index >= len(inner.PairSets) { // the coverage index is not sanitized in tables.Parse
+		return false
+	}
 	set := inner.PairSets[index]
 	record, ok := set.FindGlyph(gID(buffer.Info[skippyIter.idx].Glyph))
 	if !ok {
@@ -348,6 +357,9 @@ func (c *otApplyContext) applyGPOSPair2(inner tables.PairPosData2) bool {
 func (c *otApplyContext) applyGPOSCursive(data tables.CursivePos, covIndex int) bool {
 	buffer := c.buffer
 
+	if covIndex >= len(data.EntryExits) { // the coverage index is not sanitized in tables.Parse
+		return false
+	}
 	thisRecord := data.EntryExits[covIndex]
 	if thisRecord.EntryAnchor == nil {
 		return false
@@ -360,8 +372,8 @@ func (c *otApplyContext) applyGPOSCursive(data tables.CursivePos, covIndex int) 
 		return false
 	}
 
-	prevIndex, ok := data.Cov().Index(gID(buffer.Info[skippyIter.idx].Glyph))
-	if !ok {
+	prevIndex, ok := coverageIndex(data.Cov(), gID(buffer.Info[skippyIter.idx].Glyph))
+	if !ok || prevIndex >= len(data.EntryExits) {
 		buffer.unsafeToConcatFromOutbuffer(skippyIter.idx, buffer.idx+1)
 		return false
 	}
@@ -501,6 +513,9 @@ func (c *otApplyContext) getAnchor(anchor tables.Anchor, glyph GID) (x, y float3
 
 func (c *otApplyContext) applyGPOSMarks(marks tables.MarkArray, markIndex, glyphIndex int, anchors tables.AnchorMatrix, glyphPos int) bool {
 	buffer := c.buffer
+	if markIndex >= len(marks.MarkRecords) || markIndex >= len(marks.MarkAnchors) { // the coverage index is not sanitized in tables.Parse
+		return false
+	}
 	markClass := marks.MarkRecords[markIndex].MarkClass
 	markAnchor := marks.MarkAnchors[markIndex]
 
@@ -614,6 +629,9 @@ func (c *otApplyContext) applyGPOSMarkToLigature(data tables.MarkLigPos, markInd
 		return false
 	}
 
+	if ligIndex >= len(data.LigatureArray.LigatureAttachs) { // the coverage index is not sanitized in tables.Parse
+		return false
+	}
 	ligAttach := data.LigatureArray.LigatureAttachs[ligIndex].Anchors()
 
 	// Find component to attach to
